@@ -351,5 +351,8 @@ def estimate_stats(voltages, stats_calc_num_samples=10000):
     # large constants the squared residual overflows, so don't scale it by 0)
     if calc_len > 0 and xp.max(voltages[:calc_len]) == xp.min(voltages[:calc_len]):
         data_sigma = xp.zeros_like(data_sigma)[()]
+        # The mean of a constant is that constant: summing can round (leaving a
+        # residual that a small custom deviation blows up) or overflow
+        data_mean = xp.ravel(voltages[:1])[0] + xp.zeros_like(data_mean)[()]
     
     return data_mean, data_sigma
